@@ -27,6 +27,7 @@ import json
 import os
 import re
 import shutil
+import sys
 
 import vlib
 from vlib import Inconclusive
@@ -391,6 +392,7 @@ def analyse(ctx, helper, jobs, tag, stats):
                       "newtext": [e["new"] for e in meta["fix"]["edits"]], "want_src": False})
     verdicts = run_check(ctx, helper, items, tag)
     metas = {str(fx["id"]): m for fx, m in zip(art.fixes, art.fmeta)}
+    c3 = {}
     for it in items:
         v = verdicts.get(it["id"])
         meta = metas[it["id"]]
@@ -399,6 +401,7 @@ def analyse(ctx, helper, jobs, tag, stats):
         if v["status"] == "skip":
             stats["clause3_skipped"].append("%s: %s" % (meta["rec"]["pkg"], v.get("why", "")[:160]))
             continue
+        c3[int(it["id"])] = v["status"]
         stats["typechecked"] += 1
         stats["imports_added"] += len(v["added"])
         stats["imports_dropped"] += len(v["dropped"])
@@ -409,7 +412,7 @@ def analyse(ctx, helper, jobs, tag, stats):
             ctx.violation(vlib.canon_key({"clause": 3, "cat": cat, "fix": norm_msg(meta["fix"]["msg"]), "stage": v["status"], "err": err}),
                           "%s fix %r: patched file %s: %s" % (cat, meta["fix"]["msg"], what, v["errors"][0][-200:]),
                           diag_case(meta, {"clause": 3, "stage": v["status"], "errors": v["errors"], "imports_added": v["added"], "imports_dropped": v["dropped"]}))
-    return art, dver, fver
+    return art, dver, fver, c3
 
 
 def run_check(ctx, helper, items, tag):
@@ -449,7 +452,9 @@ def negative_selftest(ctx, art):
     cand = [fx for fx in art.fixes if len(fx["edits"]) >= 1 and all(e["file"] > 0 for e in fx["edits"])]
     if not cand:
         raise Inconclusive("negative self-test: no recorded fix to corrupt")
-    base = cand[len(cand) // 2]
+    wide = [fx for fx in cand if fx["edits"][0]["eoff"] > fx["edits"][0]["soff"] + 1 and art.diags[fx["diag"] - 1]["hasend"]
+            and art.diags[fx["diag"] - 1]["eoff"] > art.diags[fx["diag"] - 1]["off"]]
+    base = (wide or cand)[len(wide or cand) // 2]
     d0 = art.diags[base["diag"] - 1]
     results = []
     for kind in ("overlap", "oob", "endbeforestart", "column"):
@@ -533,7 +538,7 @@ def run(ctx):
     repo_sel = vlib.sample(ctx, rp, 8) if ctx.quick else rp
     jobs = make_jobs(ctx, helper, base, var_units, repo_sel)
     stats = new_stats()
-    art, dver, fver = analyse(ctx, helper, jobs, "main", stats)
+    art, dver, fver, _ = analyse(ctx, helper, jobs, "main", stats)
     if stats["diagnostics"] < 200 or stats["fixes"] < 100:
         raise Inconclusive("recorded only %d diagnostics / %d fixes; job errors: %s" % (stats["diagnostics"], stats["fixes"], stats["job_errors"][:3]))
     if stats["job_errors"]:
@@ -541,7 +546,7 @@ def run(ctx):
     neg = negative_selftest(ctx, art)
 
     # 4. behaviour
-    beh = C16_behaviour.run_behaviour(ctx, helper, run_record, run_check)
+    beh = C16_behaviour.run_behaviour(ctx, helper, sys.modules[__name__])
 
     fix_checks_seen = sorted(stats["fix_cats"])
     sample_fix = next((m for fx, m in zip(art.fixes, art.fmeta) if len(fx["edits"]) > 1), art.fmeta[0])
@@ -584,7 +589,7 @@ def replay(ctx, helper):
     doc = json.load(open(ctx.replay))
     case = doc["case"]
     if case.get("clause") == 4:
-        C16_behaviour.run_behaviour(ctx, helper, run_record, run_check, only=case.get("abstract"))
+        C16_behaviour.run_behaviour(ctx, helper, sys.modules[__name__], only=case.get("abstract"))
         return
     job = case["job"]
     units = [u for u in testdata_units() if {"check": u["check"], "ver": u["ver"]} in job.get("origin", [])]
